@@ -46,6 +46,57 @@ class _FormatAndDrop(logging.Handler):
             _FormatAndDrop.errors += 1
 
 
+_SNAP = []      # (container object, shallow copy) of lomond's process state
+_CLASS_ATTRS = {}
+
+
+def snapshot_process_state():
+    """Remember lomond's module-level and class-level containers as they
+    are right after import: what a freshly started process has."""
+    import lomond
+    import types
+    del _SNAP[:]
+    _CLASS_ATTRS.clear()
+    seen = set()
+    for name, mod in list(sys.modules.items()):
+        if not name.startswith('lomond') or mod is None:
+            continue
+        holders = [mod] + [v for v in vars(mod).values()
+                           if isinstance(v, type) and
+                           getattr(v, '__module__', '').startswith('lomond')]
+        for h in holders:
+            if isinstance(h, type):
+                _CLASS_ATTRS[h] = set(vars(h))
+            for k, v in list(vars(h).items()):
+                if k.startswith('__') or id(v) in seen:
+                    continue
+                if isinstance(v, (dict, list, set, bytearray)) and \
+                        not isinstance(v, types.ModuleType):
+                    seen.add(id(v))
+                    _SNAP.append((v, type(v)(v)))
+
+
+def reset_process_state():
+    """Put lomond's process-wide containers back to their state at import
+    (a cold process): lazily filled caches and tables are empty again."""
+    for obj, copy_ in _SNAP:
+        if isinstance(obj, dict):
+            obj.clear()
+            obj.update(copy_)
+        elif isinstance(obj, set):
+            obj.clear()
+            obj.update(copy_)
+        else:
+            obj[:] = copy_
+    for cls, names in _CLASS_ATTRS.items():
+        for k in [k for k in vars(cls) if k not in names]:
+            if isinstance(vars(cls)[k], (dict, list, set, bytearray)):
+                try:
+                    delattr(cls, k)
+                except (AttributeError, TypeError):
+                    pass
+
+
 def set_debug_logging(on):
     """One more configuration the runs vary: the application has enabled
     DEBUG logging for the 'lomond' logger (off in most runs)."""
@@ -102,6 +153,7 @@ def setup():
                     getattr(m, 'threading', None), '_verif_proxy', False):
                 m.threading = threading
     import lomond  # noqa
+    snapshot_process_state()
     import lomond.utf8validator as u8
     mod = getattr(u8.Utf8Validator, '__module__', '')
     if not mod.startswith('lomond'):
